@@ -12,7 +12,7 @@ RULE = ("seeded scenarios: 1-3 scripted clients (sharing a small pool of message
         "real server with fast / slow (separate response) / raising / response-suppressed handlers; copies of each "
         "request datagram arrive at chosen instants: same instant, before the handler finished, between empty ACK "
         "and separate response, after the response, EXCHANGE_LIFETIME -/+ epsilon after the first arrival, and long "
-        "after; systematic grid of copy position x handler kind x CON/NON. Non-trivial = at least one duplicate "
+        "after; message IDs used before by the same endpoint for a ping or a stray response; systematic grid of copy position x handler kind x CON/NON. Non-trivial = at least one duplicate "
         "copy was delivered; distinct = distinct (event class, link, fate) sequence hash.")
 COMPONENTS_REAL = ["aiocoap.messagemanager", "aiocoap.tokenmanager", "aiocoap.protocol", "aiocoap.pipe",
                    "aiocoap.resource", "aiocoap.transports.udp6", "aiocoap.util.asyncio.recvmsg", "aiocoap.message"]
@@ -21,7 +21,7 @@ ASSUMPTIONS = ["EXCHANGE_LIFETIME is the default 247 s of the incoming message's
                "copies coinciding (within 1e-9 s) with the empty-ACK timer, handler completion or the expiry timer "
                "are accepted either way"]
 EXPECTED_PROBES = ["transport_error_for_client", "dup_before_ack", "dup_after_empty_ack", "dup_after_piggyback", "dup_non", "dup_at_lifetime_minus",
-                   "dup_at_lifetime_plus", "same_mid_other_endpoint", "dup_same_instant"]
+                   "dup_at_lifetime_plus", "same_mid_other_endpoint", "dup_same_instant", "same_mid_used_for_non_request_before"]
 
 LIFETIME = 247.0
 HANDLERS = ["fast", "slow", "raise", "slowraise"]
@@ -52,6 +52,11 @@ def gen(r, tier):
                 round(r.uniform(248, 600), 3), 2 * LIFETIME + eps]))
         reqs.append({"id": i, "client": c, "mid": mid, "con": r.chance(0.7), "handler": r.choice(HANDLERS),
                      "no_response": r.choice([None, None, None, 26, 2]), "t": t0, "copies": sorted(offs)})
+        if r.chance(0.15):
+            # the same endpoint used this message ID before for something that is not a request (a ping, a confirmable
+            # response nobody waits for): the server answers those with RST, and that says nothing about the request
+            reqs[-1]["pre"] = {"kind": r.choice(["ping", "con_response", "non_response"]),
+                               "dt": r.choice([0.001, 0.5, 30.0, 246.0, 300.0])}
     # a transport error reported for a client (ICMP) must not make the server forget what it has seen from it
     icmps = []
     if r.chance(0.3):
@@ -159,6 +164,14 @@ def execute(sim, scn):
         tokens[q["id"]] = token
         raw = rc.encode(m)
         # arrival instants are chosen exactly: the copies are the fault under study
+        if q.get("pre"):
+            pk = q["pre"]["kind"]
+            pm = {"type": rc.NON if pk == "non_response" else rc.CON, "code": 0 if pk == "ping" else rc.CONTENT,
+                  "mid": q["mid"], "token": b"" if pk == "ping" else bytes([0xEE, q["id"]]), "options": [],
+                  "payload": b"" if pk == "ping" else b"stray"}
+            # (scheduled relative to a start shifted so that it never lies before t = 0)
+            cl.send(srv, raw=rc.encode(pm), fate=["at", max(0.0, q["t"] - q["pre"]["dt"])])
+            sim.probe("same_mid_used_for_non_request_before")
         cl.send(srv, raw=raw, fate=["at", q["t"]])
         for off in q["copies"]:
             cl.send(srv, raw=raw, fate=["at", q["t"] + off])
